@@ -182,6 +182,11 @@ inductive Action where
 def loopStep (cookieEmpty cookieValid : Bool) (macLen : Nat) : Action :=
   if cookieEmpty || !cookieValid then .hvr macLen else .proceed
 
+/-- version selection in `readClientHello` (first hello of a connection only): TLS/SSL
+versions 0x03xx are refused, otherwise the highest supported version not above the client's;
+`tlcp` = the one supported version (0x0101). Failure = protocol_version alert, handshake over. -/
+def versionOk (tlcp vers : Nat) : Bool := (vers / 256 != 3) && tlcp ≤ vers
+
 /-- HelloVerifyRequests sent for one datagram that carries `hellos` complete cookieless (or
 wrongly cookied) ClientHellos: the loop runs once per hello still buffered, unless the rest of
 the datagram is discarded after the first reply (`dropsLeftover`, regenerated fact). -/
